@@ -81,7 +81,7 @@ theorem snapClosest_spec (b : Box) (s : V2) (hw : 0 < b.size.x) (hh : 0 < b.size
   · -- top
     have hdyn : dy < 0 := by nlinarith [h3.1, h3.2]
     exact horiz b.tl b.tr (by simp) (by simp; exact hw') (Or.inl (by simp)) (ne_of_lt hdyn)
-      (mul_nonpos_of_nonneg_of_nonpos (le_of_lt h3.1) (le_of_lt h3.2))
+      (mul_nonpos_of_nonneg_of_nonpos (le_of_lt h3.1) h3.2)
   · -- left
     have hV0 : dx * b.size.y + dy * b.size.x ≤ 0 := by
       by_contra hcon
@@ -93,7 +93,7 @@ theorem snapClosest_spec (b : Box) (s : V2) (hw : 0 < b.size.x) (hh : 0 < b.size
       rcases eq_or_lt_of_le hV0 with h0 | hneg
       · rw [h0]; simp
       · have hu : dx * b.size.y - dy * b.size.x ≤ 0 := by
-          by_contra hcon; push Not at hcon; exact h3 ⟨hcon, hneg⟩
+          by_contra hcon; push Not at hcon; exact h3 ⟨hcon, le_of_lt hneg⟩
         exact mul_nonneg_of_nonpos_of_nonpos hu (le_of_lt hneg)
     have hdxne : dx ≠ 0 := by
       intro h0
@@ -107,6 +107,130 @@ theorem snapClosest_spec (b : Box) (s : V2) (hw : 0 < b.size.x) (hh : 0 < b.size
     exact vert b.tl b.bl (by simp) (by simp; exact hh') (Or.inl (by simp)) hdxne hUV
 
 
+/-- a point of the line through `a` and `s` at abscissa `X` lies on the same side of `a` as `s` iff `X` does -/
+theorem vline_faces (a s : V2) (X : Rat) (hs : 0 < (X - a.x) * (s.x - a.x)) :
+    0 < ((⟨X, a.y + (X - a.x) * (s.y - a.y) / (s.x - a.x)⟩ : V2) - a).dot (s - a) := by
+  have hd : s.x - a.x ≠ 0 := by
+    intro h; rw [h] at hs; simp at hs
+  have hk : 0 < (X - a.x) / (s.x - a.x) := by
+    have : (X - a.x) / (s.x - a.x) = (X - a.x) * (s.x - a.x) / ((s.x - a.x) * (s.x - a.x)) := by
+      field_simp
+    rw [this]
+    exact div_pos hs (mul_self_pos.mpr hd)
+  have hq : 0 < (s.x - a.x) * (s.x - a.x) + (s.y - a.y) * (s.y - a.y) := by
+    have := mul_self_pos.mpr hd
+    nlinarith [mul_self_nonneg (s.y - a.y)]
+  have : ((⟨X, a.y + (X - a.x) * (s.y - a.y) / (s.x - a.x)⟩ : V2) - a).dot (s - a)
+      = (X - a.x) / (s.x - a.x) * ((s.x - a.x) * (s.x - a.x) + (s.y - a.y) * (s.y - a.y)) := by
+    simp only [V2.dot, V2.sub_x, V2.sub_y]
+    field_simp
+    ring
+  rw [this]
+  exact mul_pos hk hq
+
+theorem hline_faces (a s : V2) (Y : Rat) (hs : 0 < (Y - a.y) * (s.y - a.y)) :
+    0 < ((⟨a.x + (Y - a.y) * (s.x - a.x) / (s.y - a.y), Y⟩ : V2) - a).dot (s - a) := by
+  have hd : s.y - a.y ≠ 0 := by
+    intro h; rw [h] at hs; simp at hs
+  have hk : 0 < (Y - a.y) / (s.y - a.y) := by
+    have : (Y - a.y) / (s.y - a.y) = (Y - a.y) * (s.y - a.y) / ((s.y - a.y) * (s.y - a.y)) := by
+      field_simp
+    rw [this]
+    exact div_pos hs (mul_self_pos.mpr hd)
+  have hq : 0 < (s.x - a.x) * (s.x - a.x) + (s.y - a.y) * (s.y - a.y) := by
+    have := mul_self_pos.mpr hd
+    nlinarith [mul_self_nonneg (s.x - a.x)]
+  have : ((⟨a.x + (Y - a.y) * (s.x - a.x) / (s.y - a.y), Y⟩ : V2) - a).dot (s - a)
+      = (Y - a.y) / (s.y - a.y) * ((s.x - a.x) * (s.x - a.x) + (s.y - a.y) * (s.y - a.y)) := by
+    simp only [V2.dot, V2.sub_x, V2.sub_y]
+    field_simp
+    ring
+  rw [this]
+  exact mul_pos hk hq
+
+/-- the closest-side snap of any source other than the centre lies on the ray from the centre towards the source: the side
+chosen faces the source, corners included -/
+theorem snapClosest_faces_source (b : Box) (s q : V2) (hw : 0 < b.size.x) (hh : 0 < b.size.y) (hc : s ≠ b.center)
+    (h : snapClosest b s = .ok q) : 0 < (q - b.center).dot (s - b.center) := by
+  unfold snapClosest at h
+  rw [if_neg (not_not.mpr ⟨hw, hh⟩), if_neg hc] at h
+  have hne : s.x ≠ b.center.x ∨ s.y ≠ b.center.y := by
+    by_contra hcon
+    push Not at hcon
+    exact hc (V2.ext' hcon.1 hcon.2)
+  have hU : closestU b (s - b.center) = (s.x - b.center.x) * b.size.y - (s.y - b.center.y) * b.size.x := by
+    simp [closestU]
+  have hV : closestV b (s - b.center) = (s.x - b.center.x) * b.size.y + (s.y - b.center.y) * b.size.x := by
+    simp [closestV]
+  have hd0 : s.x - b.center.x ≠ 0 ∨ s.y - b.center.y ≠ 0 := by
+    rcases hne with h' | h'
+    · left; exact sub_ne_zero.mpr h'
+    · right; exact sub_ne_zero.mpr h'
+  generalize hdx : s.x - b.center.x = dx at hU hV hd0
+  generalize hdy : s.y - b.center.y = dy at hU hV hd0
+  have hw' : b.size.x ≠ 0 := ne_of_gt hw
+  have hh' : b.size.y ≠ 0 := ne_of_gt hh
+  simp only [closestSide, hU, hV] at h
+  split_ifs at h with h1 h2 h3
+  · -- right
+    have hdxp : 0 < dx := by nlinarith [h1.1, h1.2]
+    have hsx : s.x ≠ b.center.x := by intro e; rw [e] at hdx; simp at hdx; linarith
+    rw [show (sideLine b Side.right).1 = b.tr from rfl, show (sideLine b Side.right).2 = b.br from rfl,
+      lineIntersect_vline b.center s b.tr b.br (by simp) (by simp; exact hh') hsx] at h
+    cases h
+    apply vline_faces
+    rw [hdx]
+    have : b.tr.x - b.center.x = b.size.x / 2 := by simp [Box.center_x]; ring
+    rw [this]; positivity
+  · -- bottom
+    have hdyp : 0 < dy := by nlinarith [h2.1, h2.2]
+    have hsy : s.y ≠ b.center.y := by intro e; rw [e] at hdy; simp at hdy; linarith
+    rw [show (sideLine b Side.bottom).1 = b.bl from rfl, show (sideLine b Side.bottom).2 = b.br from rfl,
+      lineIntersect_hline b.center s b.bl b.br (by simp) (by simp; exact hw') hsy] at h
+    cases h
+    apply hline_faces
+    rw [hdy]
+    have : b.bl.y - b.center.y = b.size.y / 2 := by simp [Box.center_y]; ring
+    rw [this]; positivity
+  · -- top
+    have hdyn : dy < 0 := by nlinarith [h3.1, h3.2]
+    have hsy : s.y ≠ b.center.y := by intro e; rw [e] at hdy; simp at hdy; linarith
+    rw [show (sideLine b Side.top).1 = b.tl from rfl, show (sideLine b Side.top).2 = b.tr from rfl,
+      lineIntersect_hline b.center s b.tl b.tr (by simp) (by simp; exact hw') hsy] at h
+    cases h
+    apply hline_faces
+    rw [hdy]
+    have : b.tl.y - b.center.y = -(b.size.y / 2) := by simp [Box.center_y]
+    rw [this]; nlinarith
+  · -- left
+    have hV0 : dx * b.size.y + dy * b.size.x ≤ 0 := by
+      by_contra hcon
+      push Not at hcon
+      by_cases hu : 0 < dx * b.size.y - dy * b.size.x
+      · exact h1 ⟨hu, hcon⟩
+      · exact h2 ⟨le_of_not_gt hu, hcon⟩
+    have hU0 : dx * b.size.y - dy * b.size.x ≤ 0 := by
+      by_contra hcon; push Not at hcon; exact h3 ⟨hcon, hV0⟩
+    have hdxn : dx < 0 := by
+      have hle : dx ≤ 0 := by nlinarith
+      rcases eq_or_lt_of_le hle with h0 | hlt
+      · exfalso
+        rw [h0] at hU0 hV0
+        have : dy * b.size.x = 0 := by linarith
+        rcases mul_eq_zero.mp this with h' | h'
+        · rcases hd0 with h'' | h''
+          · exact h'' h0
+          · exact h'' h'
+        · exact hw' h'
+      · exact hlt
+    have hsx : s.x ≠ b.center.x := by intro e; rw [e] at hdx; simp at hdx; linarith
+    rw [show (sideLine b Side.left).1 = b.tl from rfl, show (sideLine b Side.left).2 = b.bl from rfl,
+      lineIntersect_vline b.center s b.tl b.bl (by simp) (by simp; exact hh') hsx] at h
+    cases h
+    apply vline_faces
+    rw [hdx]
+    have : b.tl.x - b.center.x = -(b.size.x / 2) := by simp [Box.center_x]
+    rw [this]; nlinarith
 
 theorem sgn1_ne_zero (r : Rat) : sgn1 r ≠ 0 := by
   unfold sgn1; split_ifs <;> norm_num
